@@ -26,9 +26,14 @@
 //	                       ms.Modules and ms.SubModules, unconditionally
 //	      generation       the field is a memo with a generation stamp: the counter is bumped
 //	                       unconditionally in the prologue, and in every function that writes
-//	                       the memo the stamp is written from the counter, every memo-hit test
-//	                       `x.F != nil` is conjoined with `x.stamp == d.counter`, and the memo
-//	                       is not read before it is reset except under such a test
+//	                       the memo the stamp is written from the counter, and every read of the
+//	                       memo through the receiver is DOMINATED by a successful test
+//	                       `x.stamp == d.counter` (right operand of && after it, then-branch /
+//	                       case body of a conjunction containing it, else-branch or code after an
+//	                       early leave of its negation), or is a hit test `x.F != nil` standing
+//	                       as a conjunct beside that test, or a bare miss test `x.F == nil`, or
+//	                       comes after the unconditional reset `x.F = nil` of the function;
+//	                       a disjunction around the stamp test implies nothing
 //	      partial          written in the prologue, but conditionally or not with a fresh value
 //	      none             nothing of the above
 //	    A field may name another function as the place of its reset ("reset_in"): then that
